@@ -238,16 +238,17 @@ def rule_coerce(ctx):
         ctx.paths_enumerated += len(paths)
         ok = True
         size_checked = False
+        msz = f.params()[1] + ".size"  # the message parameter, whatever it is called
         for pa in paths:
             conds = [e.data["cond"] for e in pa.events if e.kind == "assert"] + [e.data["cond"] for e in pa.assumes()]
             for c in conds:
                 for t in subterms(c):
                     if isinstance(t, Term) and t.op == "cmp":
                         for side, other in ((t.args[1], t.args[2]), (t.args[2], t.args[1])):
-                            if show(side) == "msg.size":
+                            if show(side) == msz:
                                 ctx.violated("C06.COERCE", f.short, f"the declared size (text on every wire-parsed message) is compared uncoerced: {show(t)[:80]}", fi=f, text="size-uncoerced", witness='<oneBLOB size="3" ...> : "3" == 3 is False')
                                 ok = False
-                            if "msg.size" in show(side) and show(side) in ("int(msg.size)", "float(msg.size)") and show(other).endswith(".size"):
+                            if show(side) in (f"int({msz})", f"float({msz})") and show(other).endswith(".size"):
                                 size_checked = True
         if not size_checked and ok:
             ctx.violated("C06.COERCE", f.short, "the declared BLOB size is not compared with the decoded length", fi=f, text="size-unchecked")
